@@ -240,7 +240,13 @@ func c11L2(r *Run, rep *core.Report) {
 			}
 		}
 		// chain walks: copy / range collect release the lock only at the end of the chain; isEmpty answers true only there
-		for _, f := range []*ssa.Function{mm.Copy, mm.Methods["Range"]} {
+		chainFns := []*ssa.Function{mm.Copy, mm.Methods["Range"]}
+		for _, g := range mapFuncs(r, mm) {
+			if g != mm.Core && g != mm.Copy && g != mm.Methods["Range"] && r.M.AcquiresBucketLock(g) {
+				chainFns = append(chainFns, g) // helpers extracted from the traversal / copy routines
+			}
+		}
+		for _, f := range chainFns {
 			nChain++
 			m := &core.Machine[bool]{P: r.P, Fn: f, Spec: core.Spec{}}
 			bad := ""
@@ -286,6 +292,32 @@ func c11L2(r *Run, rep *core.Report) {
 	}
 	rep.MinCount("C11.L2", "slot loops", nSlot, 8)
 	rep.MinCount("C11.L2", "chain walks", nChain, 5)
+}
+
+// linkValue: v is the chain link of a bucket just read (a load, atomic or plain, of a link word), possibly
+// merged by the loop phi of a 'for ; b != nil; b = next' walk whose other edge is the chain's root.
+func linkValue(r *Run, v ssa.Value, depth int) bool {
+	v = core.StripConv(v)
+	var addr ssa.Value
+	if a, isA := atomicLoadAddr(v); isA {
+		addr = a
+	} else if u, isU := v.(*ssa.UnOp); isU && u.Op == token.MUL {
+		addr = u.X
+	}
+	if addr != nil {
+		k, _ := slotKind(r, addr)
+		return k == "link"
+	}
+	if phi, isPhi := v.(*ssa.Phi); isPhi && depth < 2 {
+		n := 0
+		for _, e := range phi.Edges {
+			if linkValue(r, e, depth+1) {
+				n++
+			}
+		}
+		return n >= 1 && len(phi.Edges) == 2 // root bucket (non-nil) on entry, link on the back edge
+	}
+	return false
 }
 
 func boundStr(v ssa.Value) string {
@@ -339,16 +371,7 @@ func chainEndEdge(r *Run) func(ctx *core.Ctx[bool], s bool, from *ssa.BasicBlock
 			if !core.IsNilConst(pair[1]) {
 				continue
 			}
-			var addr ssa.Value
-			if a, isA := atomicLoadAddr(pair[0]); isA {
-				addr = a
-			} else if u, isU := core.StripConv(pair[0]).(*ssa.UnOp); isU && u.Op == token.MUL {
-				addr = u.X
-			}
-			if addr == nil {
-				continue
-			}
-			if k, _ := slotKind(r, addr); k == "link" {
+			if linkValue(r, pair[0], 0) {
 				eqOnTrue := (b.Op == token.EQL) != neg
 				return (idx == 0) == eqOnTrue, true
 			}
